@@ -13,7 +13,7 @@ def showPlay (P : PlayWire.Profile) : String :=
   s!"ok ka={P.kaCb}:{P.kaSb}:{if P.kaLong then "L" else "V"} " ++
   s!"pos={P.posLookCb}:{P.ackSb}:{if P.newer107 then "T" else "E"}:{if P.dismount then "D" else "-"} " ++
   s!"disc={P.disconnectCb} tc={P.teleportConfirmSb} echo={P.posLookSb} " ++
-  s!"setcomp={optId (setCompOf P)} " ++
+  s!"setcomp={optId P.setCompressionCb} " ++
   s!"others={if P.others.isEmpty then "-" else ",".intercalate (P.others.map fun e => toString e.1)}"
 
 def showLogin (L : LoginProfile) : String :=
